@@ -8,6 +8,10 @@ seeded_only = "--seeded" in sys.argv
 REPO = "/tmp/wt-verify2" if "--shadow2" in sys.argv else "/tmp/wt-verify" if "--shadow" in sys.argv else "/repo"
 ENV = dict(os.environ, VERIF_REPO=REPO, VERIF_SHADOW="/tmp/verif-shadow2" if "--shadow2" in sys.argv else "/tmp/verif-shadow") if REPO != "/repo" else dict(os.environ)
 args = [a for a in sys.argv[1:] if not a.startswith("--")]
+if REPO != "/repo" and not os.path.isdir(REPO):
+    # the scratch checkout is removed at the end of a session: recreate it at /repo's HEAD
+    subprocess.run(["git", "-C", "/repo", "worktree", "prune"], check=False)
+    subprocess.run(["git", "-C", "/repo", "worktree", "add", "--detach", REPO, "HEAD"], check=True)
 props = args or sorted(os.listdir("/verif/mutations"))
 subprocess.run(["git", "-C", REPO, "diff", "--quiet"], check=True)
 rows = []
